@@ -200,6 +200,46 @@ def run_tlc(
     return TLCResult(out, rc, time.time() - t0, cmd)
 
 
+class TLCHandle(object):
+    """a TLC run in flight (start_tlc); finish() waits for it and returns the TLCResult"""
+
+    def __init__(self, proc, outfile, meta, cmd, t0, timeout):
+        (self.proc, self.outfile, self.meta, self.cmd, self.t0, self.timeout) = (proc, outfile, meta, cmd, t0, timeout)
+
+    def finish(self) -> TLCResult:
+        try:
+            try:
+                rc = self.proc.wait(timeout=max(1.0, self.timeout - (time.time() - self.t0)))
+                timed_out = False
+            except subprocess.TimeoutExpired:
+                self.proc.kill()
+                self.proc.wait()
+                (rc, timed_out) = (-9, True)
+            with open(self.outfile, "rb") as f:
+                out = f.read().decode("utf-8", "replace") + ("\nTIMEOUT" if timed_out else "")
+        finally:
+            shutil.rmtree(self.meta, ignore_errors=True)
+            try:
+                os.remove(self.outfile)
+            except OSError:
+                pass
+        return TLCResult(out, rc, time.time() - self.t0, self.cmd)
+
+
+def start_tlc(spec_dir: str, module: str, cfg: str, workers: int = 0, timeout: int = 900,
+              extra: Optional[List[str]] = None, heap: str = "4g") -> TLCHandle:
+    """run_tlc without waiting: the output goes to a file, no thread and no fork of this process is involved"""
+    meta = tempfile.mkdtemp(prefix="meta-", dir=scratch())
+    cmd = (["java", "-XX:+UseParallelGC", "-Xmx" + heap, "-cp", TLA_CP, "tlc2.TLC", "-workers", str(workers or NCPU),
+            "-metadir", meta, "-noGenerateSpecTE", "-config", cfg] + (extra or []) + [module])
+    e = dict(os.environ)
+    e.pop("JAVA_TOOL_OPTIONS", None)
+    (fd, outfile) = tempfile.mkstemp(prefix="tlcout-", dir=scratch())
+    proc = subprocess.Popen(cmd, cwd=spec_dir, stdout=fd, stderr=subprocess.STDOUT, env=e)
+    os.close(fd)
+    return TLCHandle(proc, outfile, meta, cmd, time.time(), timeout)
+
+
 def tlc_must_pass(r: TLCResult, what: str) -> None:
     if not r.no_error:
         errs = [l for l in r.out.split("\n") if l.startswith("Error:") or l.startswith("State ") or "line " in l and "col " in l and l.startswith("<")]
